@@ -206,8 +206,13 @@ def run(ctx):
         ctx.violation("R12.1", "constants/anchor", "identity and reflect_vert constructors not both found", None)
 
     # ---- R12.2 flatten
-    rec = [f for f in F.fns.values() if f.id.startswith("layout21raw::data::") and any(re.search(r"geom::Transform$", i["s"]) for i in f.inputs)
-           and any(callee_id(t) == f.id for bi, t in Body(f).calls())]
+    def calls_itself(f):
+        if any(callee_id(t) == f.id for bi, t in Body(f).calls()):
+            return True
+        # the recursive call may sit in a closure handed to an iterator adapter
+        return any(any(callee_id(t) == f.id for bi, t in Body(cf).calls()) for cf, abb, an in od.closure_loops(F, f))
+    rec = [f for f in F.fns.values() if f.id.startswith("layout21raw::data::") and f.kind != "Closure" and any(re.search(r"geom::Transform$", i["s"]) for i in f.inputs)
+           and calls_itself(f)]
     if len(rec) != 1 or not cascade or not from_inst:
         ctx.violation("R12.2", "flatten/anchor", "expected one recursive flattening function taking a Transform, found %s" % [f.short for f in rec], None)
         return
@@ -229,7 +234,8 @@ def run(ctx):
         elif name and re.search(r"TransformTrait>::transform$|::transform$", name) and len(args) == 2:
             seen["xf"].append(args)
         return None
-    w.run(on_call=on_call)
+    from analysis.walk import with_closures
+    w.run(on_call=with_closures(F, on_call))
 
     def is_param(t, k):
         t = strip_calls(t)
@@ -293,13 +299,12 @@ def run(ctx):
         else:
             ctx.violation("R12.2", "flatten/elements", "%s: element shapes are not transformed by the incoming transform" % f.short, site)
     # every element / instance visited
-    xf_bbs = [bi for bi, t in b.calls() if re.search(r"::transform$", callee_name(t) or "")]
-    rec_bbs = [bi for bi, t in b.calls() if callee_id(t) == f.id]
-    push_bbs = [bi for bi, t in b.calls() if re.search(r"Vec::<.*>::push$", callee_name(t) or "")]
-    for label, bbs in (("elements", push_bbs), ("instances", rec_bbs)):
-        loops = od.loop_iterations_all_call(b, bbs)
+    for label, is_target in (("elements", lambda t: bool(re.search(r"Vec::<.*>::push$|Extend<.*>>::extend$", callee_name(t) or ""))),
+                             ("instances", lambda t: callee_id(t) == f.id)):
+        why = []
+        loops = od.every_item_handled(F, f, is_target, why)
         if not loops or not all(ok for h, ok in loops):
-            ctx.violation("R12.2", "flatten/all-" + label, "%s: an iteration over %s can skip the %s" % (f.short, label, "push" if label == "elements" else "descent"), site)
+            ctx.violation("R12.2", "flatten/all-" + label, "%s: an iteration over %s can skip the %s (%s)" % (f.short, label, "push" if label == "elements" else "descent", "; ".join(why) or "no loop found"), site)
         else:
             ctx.ok("R12.2", "flatten/all-" + label, "every iteration handles its item")
     ctx.assume("signs and rounding of the matrix entries are value-level and not decided; only which inputs each entry depends on, and the composition order")
